@@ -127,6 +127,7 @@ pub fn check_with(tc: &TreeCase, kf: &Switches, st: &mut Stats) -> Result<(), St
     // part of the property's domain are normalised
     let mut cfg = tc.cfg.clone();
     cfg.drop_doctype = false;
+    cfg.dsd_succeed = false; // the reference models the failing attach only
     let (real, rq) = run_real(&cfg, &[tc.input.clone()])?;
     let rf = run_reference(&cfg, &tc.input, kf);
     if real != rf.dump {
@@ -236,6 +237,26 @@ pub fn doctype_sweep() -> Vec<(TreeCfg, String)> {
         ids.push(s.to_string());
     }
     let mut out = vec![];
+    // a multi-byte character at every position of every table entry, and after n ASCII bytes for
+    // every n up to the longest entry (prefix comparisons at every table length)
+    for id in &ids {
+        let cs: Vec<char> = id.chars().collect();
+        for at in 0..=cs.len() {
+            for c in ['é', '\u{130}'] {
+                let mut p: String = cs[..at].iter().collect();
+                p.push(c);
+                p.extend(cs[at..].iter());
+                let q = if p.contains('"') { '\'' } else { '"' };
+                out.push((TreeCfg::default(), format!("<!DOCTYPE html PUBLIC {q}{p}{q}><p>x")));
+                out.push((TreeCfg::default(), format!("<!DOCTYPE html PUBLIC \"\" {q}{p}{q}><p>x")));
+            }
+        }
+    }
+    for n in 0..100 {
+        let p = format!("{}é", "a".repeat(n));
+        out.push((TreeCfg::default(), format!("<!DOCTYPE html PUBLIC \"{p}\"><p>x")));
+        out.push((TreeCfg::default(), format!("<!DOCTYPE html SYSTEM \"{p}\"><p>x")));
+    }
     for id in &ids {
         let mut variants = vec![id.clone(), id.to_ascii_uppercase(), format!("{id}EN"), format!("x{id}")];
         if !id.is_empty() {
